@@ -48,7 +48,7 @@ Definition find_accept_ent (c : cfg) (s : repo) (q : query) (expected got : list
   Nat.eqb (List.length expected) (List.length got)
   && forallb (fun p => t_equal (t_created (fst p)) (t_created (snd p))) (combine expected got)
   && forallb (fun t => otask_eqb (lookup (t_id t) s) (Some t)
-                       && q_match (norm_query (c_norm_deadline c) q) t) got
+                       && q_match_gen (c_like_ci c) (norm_query (c_norm_deadline c) q) t) got
   && ids_nodup got.
 
 Definition res_accept (c : cfg) (s : repo) (o : op) (expected got : res) : bool :=
